@@ -98,6 +98,28 @@ def oracle_func(p):
     return out
 
 
+def oracle_bigeigen(p):
+    """subspace decisions (AIC / MDL / threshold) for a large order on a long record, under a small and a large amplitude"""
+    sp = C.sp()
+    x = np.asarray(p["x"])
+    P = p["P"]
+    out = []
+    for crit in ("aic", "mdl"):
+        p1, s1 = sp.music(x, P, NFFT=256, criteria=crit)
+        e1, _ = sp.ev(x, P, NFFT=256, criteria=crit)
+        for cc in p["cs"]:
+            p2, s2 = sp.music(cc * x, P, NFFT=256, criteria=crit)
+            if rel(np.asarray(p2), np.asarray(p1)) > 1e-5:
+                out.append("music (P=%d, N=%d, criteria=%s): pseudo-spectrum changes under x -> %g*x (subspace decision depends on the "
+                           "amplitude): rel err %.2e" % (P, len(x), crit, cc, rel(np.asarray(p2), np.asarray(p1))))
+                break
+            e2, _ = sp.ev(cc * x, P, NFFT=256, criteria=crit)
+            if rel(np.asarray(e2), abs(cc) * np.asarray(e1)) > 1e-5:
+                out.append("ev (P=%d, criteria=%s): pseudo-spectrum is not |c| times the original for c=%g" % (P, crit, cc))
+                break
+    return out
+
+
 def oracle_class(p):
     x = np.asarray(p["x"])
     c = p["c"]
@@ -168,6 +190,7 @@ def _tags(p):
 
 
 KINDS = {
+    "bigeigen": {"oracle": oracle_bigeigen, "key": _key, "tags": lambda p: ["bigeigen:P=%d" % p["P"]]},
     "func": {"oracle": oracle_func, "key": _key, "tags": _tags},
     "class": {"oracle": oracle_class, "key": _key, "tags": _tags},
     "scaled": {"impl": impl_scaled, "model": model_scaled, "post": post_scaled, "rtol": 1e-6, "atol": 1e-300, "key": _key, "tags": _tags},
@@ -196,6 +219,11 @@ def gen(rng, nrng, tier):
         cplx = bool(i % 2)
         x = _data(nrng, 40, cplx)
         yield ("func", {"x": x, "c": _scalars(nrng, cplx, i)})
+    for i in range(2 if tier == "quick" else 12):
+        NB = 256
+        tb = np.arange(NB)
+        xb = np.cos(0.4 * tb) + 0.5 * np.cos(1.1 * tb + 1) + [1e-3, 1e-2][i % 2] * nrng.standard_normal(NB)
+        yield ("bigeigen", {"x": xb, "P": [80, 96, 64, 100][i % 4], "c": 1.0, "cs": [1e-3, 1e3]})
     m = 84 if tier == "quick" else 1000
     for i in range(m):
         cls = C.CLASSES[i % len(C.CLASSES)]
